@@ -1,6 +1,6 @@
 (* Extraction of the C04 model for the correspondence driver. ExtrOcamlBasic only. *)
 Require Import ExtrOcamlBasic.
 From Coq Require Import ZArith.
-Require Import XV.SerDefs XV.XmlParseDefs.
+Require Import XV.SerDefs XV.XmlParseDefs XV.SerIndentDefs.
 (* Z.of_N only so that the type z exists for ocaml/conv.ml *)
-Extraction "extracted/ser_model.ml" serialize_fast serialize_other_fast rep_all parse_content parse_attr Z.of_N.
+Extraction "extracted/ser_model.ml" serialize_fast serialize_other_fast serialize_indent_fast fam_of fam_other rep_all parse_content parse_attr Z.of_N.
